@@ -117,7 +117,7 @@ func Explore(s Sys, run *ev.Run) Stats {
 			g := impl.Do(op)
 			w := root.m.Do(op)
 			if d := drv.Compare(op, g, w); d != nil {
-				sig := s.SigOf(op, d, nil)
+				sig := s.SigOf(op, d, nil) + "@" + base(impl.Name())
 				run.Report("init|"+sig, d.String(), Replay{Driver: impl.Name(), System: s.Name, Init: s.Init, Op: op, Got: g.Short(), Want: w.Short()})
 				return st
 			}
@@ -185,7 +185,7 @@ func Explore(s Sys, run *ev.Run) Stats {
 							continue
 						}
 						if d := drv.Compare(op, got, want); d != nil {
-							sig := s.SigOf(op, d, nil)
+							sig := s.SigOf(op, d, nil) + "@" + base(impl.Name())
 							if run.Report(sig, d.String(), Replay{Driver: impl.Name(), System: s.Name, Init: s.Init, History: hist, Op: op, Got: got.Short(), Want: want.Short()}) {
 								atomic.AddInt64(&st.SuppressedTr, 1)
 							}
@@ -201,7 +201,7 @@ func Explore(s Sys, run *ev.Run) Stats {
 							w := m.Do(ro)
 							atomic.AddInt64(&st.ObserveOps, 1)
 							if d := drv.Compare(ro, g, w); d != nil {
-								sig := s.SigOf(op, d, &ro)
+								sig := s.SigOf(op, d, &ro) + "@" + base(impl.Name())
 								if run.Report(sig, d.String(), Replay{Driver: impl.Name(), System: s.Name, Init: s.Init, History: hist, Op: op, Observe: &ro, Got: g.Short(), Want: w.Short()}) {
 									atomic.AddInt64(&st.SuppressedTr, 1)
 								}
@@ -215,7 +215,7 @@ func Explore(s Sys, run *ev.Run) Stats {
 						if s.Extra != nil {
 							xs := s.Extra(impl, m, op)
 							for _, x := range xs {
-								if run.Report(x.Sig, x.Detail, Replay{Driver: impl.Name(), System: s.Name, Init: s.Init, History: hist, Op: op}) {
+								if run.Report(x.Sig+"@"+base(impl.Name()), x.Detail, Replay{Driver: impl.Name(), System: s.Name, Init: s.Init, History: hist, Op: op}) {
 									atomic.AddInt64(&st.SuppressedTr, 1)
 								}
 							}
@@ -273,6 +273,14 @@ func Explore(s Sys, run *ev.Run) Stats {
 	st.States = int64(len(seen))
 	st.Exhaustive = exhaustive
 	return st
+}
+
+// base is the SDK adapter a driver name belongs to ("v1x2" -> "v1").
+func base(n string) string {
+	if len(n) >= 2 {
+		return n[:2]
+	}
+	return n
 }
 
 func orOK(s string) string {
